@@ -49,6 +49,18 @@ strengthened = {
     "C17-f": "C17: dotted paths into lazily imported packages (vf.lazy...), with the import state of the package chain (0-4 levels already imported) as an input - this found defect D11 in the unchanged code",
     "C18-f": "control grammar: text parameters (group names) and number parameters now share part of their vocabulary ('7', '10', 'abc', 'one', '1.5')",
     "C19-f": "C19: up to three serving periods per server object, clients of an earlier period may still be connected (earlier serving task pending) and leave while the server serves again; is_serving() is checked before every action - this found defect D12 in the unchanged code",
+    "C01-g": "C01: the size a pool already has may be assigned once more at any time (operation 'set_same', also from workers / callbacks and in the placement sweeps) - the pool size stays fixed, as C01's quantifier demands",
+    "C03-g": "callbacks may be callable objects that are falsy while empty (a list subclass collecting ids)",
+    "C04-g": "pool names with '%', '{}', blanks, non-ASCII and long names; group names likewise ('g1%', '%s-2', '{}3', '%(x)s4', 'a%%b5', '-g6', ...)",
+    "C06-g": "C06: new 'session' family - cancel sent as a control command while a second served pool of the same class (decoy) receives the same lines first; compared with a twin pool driven directly",
+    "C08-g": "requests that name their group may pass a functools.partial as func - this found defect D13 in the unchanged code",
+    "C09-g": "apply may get a one-shot iterator as args (requests with at most one invocation and rejected requests); a rejected request must not advance it",
+    "C10-g": "unknown / dead group names with '%' and '{}'; 'an unknown name raises InvalidGroupName' (filed under C07.unknown / C07.forgotten) now also counts for C10",
+    "C11-g": "callbacks given as functools.partial with positional arguments bound in advance; a callback called with something that is not a task id is a C11 clause (and no longer crashes the harness)",
+    "C15-g": "async callbacks may let a CancelledError that reaches them pass (abandoned flush) instead of swallowing it; C15 profile with abandoned flushes and slow callbacks",
+    "C16-g": "C16: read-only members and static methods of the served class are executed as commands and compared with the direct access (subclasses now define static methods and override inherited members)",
+    "C17-g": "C17: pool subclasses override inherited public members (lock, cancel_all, pool_size) - the command must reach the override",
+    "C20-g": "C20: a wait for an item that ends with anything but CancelledError is a violation; join() pending at idle with an empty queue and no open block is a violation; every fourth execution runs with the library's loggers at DEBUG (formatting sink)",
     "C08-e": "C08: pool_size assignments in the C08 generator (while tasks are inside callbacks)",
     "C13-e": "C13: new 'server' family - a session's pending flush plus the program's own flush while the control server is stopped; pool generator: flush calls whose caller gives up (cancelled flush) are modelled",
     "C14-e": "C14: exact oracle for stop()/stop_all() also when tasks cancelled before their first step are around (was lenient there)",
